@@ -15,7 +15,8 @@ RULE = ("all 12 ordered pairs of {kelvin, celsius, fahrenheit, Rankine} x {no pr
         "and after new declarations (history); distinct = "
         "(source scale, target scale, prefix side, prefix, magnitude bucket); non-trivial = source scale != target scale "
         "or a prefix is involved"
-        " The history also declares user scales anchored on each stock unit, and applies augmented assignment to quantities returned by quantify()/unprefixed().")
+        " The history also declares user scales anchored on each stock unit, and applies augmented assignment to quantities returned by quantify()/unprefixed()."
+        " Plus the command line's equivalents, fresh processes that import the library under 3-6 digit decimal contexts, and operator coherence at exact ties.")
 ASSUMPTIONS = [
     "oracle: C = K - 273.15, F = R - 459.67, R = 9/5 K evaluated in Fraction; a prefix multiplies the scale reading",
     "tolerance 1e-9 relative to the expected reading plus 1e-9 relative to the largest kelvin-sized intermediate "
